@@ -98,6 +98,7 @@ class MonSpec(statex.Spec):
             stats['probe_%s_runs' % kind] += 1
             stats['probe_evals'] += delta.get('evals', 0)
             stats['probe_%s_creates' % kind] += delta.get('create_requests', 0)
+            stats['probe_rate_limited'] += delta.get('rate_limited', 0)
         return viol, dict(stats)
 
 
@@ -135,14 +136,14 @@ def _cfg_pair(tier):
 
 def configs(ctx):
     if ctx.quick:
-        return [('single', _cfg_single('quick'), 5, 0.6),
-                ('pair', _cfg_pair('quick'), 3, 0.4)]
-    return [('single', _cfg_single('thorough'), 7, 0.6),
-            ('pair', _cfg_pair('thorough'), 5, 0.4)]
+        return [('single', _cfg_single('quick'), 6, 0.6),
+                ('pair', _cfg_pair('quick'), 4, 0.4)]
+    return [('single', _cfg_single('thorough'), 9, 0.6),
+            ('pair', _cfg_pair('thorough'), 6, 0.4)]
 
 
 NONTRIVIAL = ['evals_with_request', 'create_requests', 'delete_requests',
-              'rate_limited', 'suspended_skips', 'instances_created',
+              'rate_limited_total', 'suspended_skips', 'instances_created',
               'instances_deleted']
 
 
@@ -217,15 +218,19 @@ def run(ctx):
     cnt = cov['nontrivial_counters']
     cov['depth_completed'] = min(c['depth_completed']
                                  for c in cov['configs'].values())
-    cov['evaluations'] = cnt.get('evals', 0)
+    cov['evaluations'] = cnt.get('evals', 0) + cnt.get('probe_evals', 0)
     cov['executions'] = cov['transitions']
     cov['traces_validated_against_impl'] = cov['transitions'] + \
         cnt.get('probe_drain_runs', 0) + cnt.get('probe_converge_runs', 0)
     cov['distinct_nontrivial'] = cnt.get('evals_with_request', 0)
     cov['rule'] = RULE
-    for k in NONTRIVIAL:
-        if cnt.get(k, 0) == 0:
-            raise statex.HarnessError('vacuous run: counter %s is 0' % k)
+    cnt['rate_limited_total'] = cnt.get('rate_limited', 0) + \
+        cnt.get('probe_rate_limited', 0)
+    if not violations:
+        # a silent run in which an antecedent never fired proves nothing
+        for k in NONTRIVIAL:
+            if cnt.get(k, 0) == 0:
+                raise statex.HarnessError('vacuous run: counter %s is 0' % k)
     return {'coverage': cov, 'violations': violations,
             'assumptions': ASSUMPTIONS}
 
